@@ -14,6 +14,9 @@ Ops (positional; keys = 64 hex digits; optional client accounts `none` | key; ke
 * `ix sys.<Variant> …` / `ix tok.<Variant> …` / `ix ata.<Variant> …` — arguments in the order of the `Ix`
   constructor → `ok <program> <data> <key:s:w,…>`
 * `mint <owner> <image>` / `token <owner> <image>` → `ok <fields>` | `err:<class>`
+* `vmint <owner> <image> <decimals|any> <authority|any> <any|none|freeze key>` /
+  `vtoken <owner> <image> <mint|any> <owner|any>` — `validate()?; validate_mint/validate_token(arg)` →
+  `ok` | `err:<class>`
 * `ata <wallet> <mint>` → `ok <seed|seed|seed> <program>`
 -/
 namespace Spl.Driver
@@ -125,6 +128,22 @@ def showViewErr : ViewErr → String
   | .bitPattern => "err:CheckedCastError"
   | .uninit => "err:UninitializedAccount"
 
+def showValErr : ValErr → String
+  | .view e => showViewErr e
+  | .invalidAccountData => "err:InvalidAccountData"
+  | .incorrectAuthority => "err:IncorrectAuthority"
+
+def showVal : Except ValErr Unit → String
+  | .ok _ => "ok"
+  | .error e => showValErr e
+
+/-- `any` | value -/
+def pAny {α : Type} (p : String → Option α) (s : String) : Option (Option α) :=
+  if s = "any" then some none else (p s).map some
+
+def pFreeze (s : String) : Option FreezeArg :=
+  if s = "any" then some .any else if s = "none" then some .none else (pKey s).map .some
+
 def showMint (m : Mint) : String :=
   s!"ok ma={showOptKey m.mintAuthority} supply={m.supply} dec={m.decimals} init={showBool m.isInitialized} fa={showOptKey m.freezeAuthority}"
 
@@ -152,6 +171,15 @@ def step (_ : Unit) (toks : List String) : Unit × String :=
         | .ok vs => showToken (viewToken vs)
         | .error e => showViewErr e
       | _, _ => "bad-op"
+    | ["vmint", owner, image, d, au, fr] =>
+      match pKey owner, parseHex image, pAny pU8 d, pAny pKey au, pFreeze fr with
+      | some o, some b, some d, some au, some fr =>
+        showVal (fwValidateMint (o == Generated.tokenId) b ⟨d, au, fr⟩)
+      | _, _, _, _, _ => "bad-op"
+    | ["vtoken", owner, image, mint, own] =>
+      match pKey owner, parseHex image, pAny pKey mint, pAny pKey own with
+      | some o, some b, some m, some w => showVal (fwValidateToken (o == Generated.tokenId) b ⟨m, w⟩)
+      | _, _, _, _ => "bad-op"
     | ["ata", wallet, mint] =>
       match pKey wallet, pKey mint with
       | some w, some m =>
